@@ -82,7 +82,7 @@ def eval_violations(run, ck, verdicts, recs, topic):
                 o += ":log"
             elif o == "ok":
                 o = "ok:wrong-value"
-        fclass = "lit" if form in ("lit", "mixed") else "bound"
+        fclass = "lit" if form in ("lit", "mixed") or (form.startswith("sub:") and "1" in form) else "bound"
         key = "%s|%s|%s|%s|allowed=%s|observed=%s" % (run.prop, topic, sh, fclass, a, o)
         src = next((x.get("src") for x in rec.get("obs", []) if x.get("form") == form), "")
         what = "%s  (%s) allowed %s observed %s" % (src[:100], form, json.dumps(allowed["allowed"])[:160], json.dumps(obs["out"])[:160])
@@ -149,4 +149,23 @@ def c06(run, ck):
                 assumptions=[])
 
 
-PIPELINES = {"C03": c03, "C04": c04, "C05": c05, "C06": c06}
+def c07(run, ck):
+    eval_stage(run, ck, "macros", 1500, 30000)
+    return dict(rule="every macro x lists of length 0..4 x body shapes (hit position k, failing at k, outer variable, stored program, nested macro with the same / another variable, unbound, recording function); "
+                     "exists_one with hits at every pair of positions; reduce with non-commutative steps; equal maps built four ways must iterate identically; random lists up to 64 elements",
+                assumptions=[])
+
+
+def c08(run, ck):
+    eval_stage(run, ck, "hascoal", 1500, 30000)
+    return dict(rule="field paths of depth 0..4 (by .f and by ['f']) x binding configurations x 15 contexts; all coalesce argument lists of length 0..5 over {present, null, absent, failing} as recording calls",
+                assumptions=[])
+
+
+def c09(run, ck):
+    eval_stage(run, ck, "fold", 1200, 25000)
+    return dict(rule="generated expressions over <= 4 variables x every subset of the variables replaced by literals of their bound values (all must lie in the specification's outcome); "
+                     "targeted programs for every construct the compiler folds", assumptions=[])
+
+
+PIPELINES = {"C09": c09, "C03": c03, "C04": c04, "C05": c05, "C06": c06, "C07": c07, "C08": c08}
